@@ -55,7 +55,7 @@ Section Proofs.
       ti_imprint_alg t0 = Some h /\
       H h data = ti_imprint t0 /\                                           (* message imprint = digest of the data *)
       in_tsa_validity c t (ti_gen_time t) = true /\                         (* inside the TSA certificate's validity (+- accuracy) *)
-      (vt = true -> tsa_profile profile_rest c (ti_gen_time t) = None /\ trusted c (ti_gen_time t) = true).
+      (vt = true -> has_ts_eku c = true /\ tsa_profile profile_rest c (ti_gen_time t) = None /\ trusted c (ti_gen_time t) = true).
 
   Lemma check_signer_done :
     forall tk data vt s t l,
@@ -83,6 +83,7 @@ Section Proofs.
               if negb (bytes_eqb (H h data) (ti_imprint (with_time t0 (effective_time t0 s)))) then Fail EInvalidData [LTs TsMismatch]
               else if vt then
                 if negb (tc_x509_ok c) then Abort EDecode
+                else if negb (has_ts_eku c) then Fail EUntrusted [LTs TsValidated; LTs TsUntrusted]
                 else match tsa_profile profile_rest c (effective_time t0 s) with
                      | Some cc => Fail EUntrusted [LTs TsValidated; LCred cc; LTs TsUntrusted]
                      | None => if negb (trusted c (effective_time t0 s)) then Fail EUntrusted [LTs TsValidated; LTs TsUntrusted]
@@ -101,6 +102,7 @@ Section Proofs.
     apply bytes_eqb_eq in Ei.
     destruct vt.
     - destruct (tc_x509_ok c); cbn [negb] in Hrest; [|discriminate].
+      destruct (has_ts_eku c) eqn:Eeku; cbn [negb] in Hrest; [|discriminate].
       destruct (tsa_profile profile_rest c (effective_time t0 s)) eqn:Ep; [discriminate|].
       destruct (trusted c (effective_time t0 s)) eqn:Etr; cbn [negb] in Hrest; [|discriminate].
       inversion Hrest; subst. split; [|reflexivity].
@@ -120,7 +122,7 @@ Section Proofs.
     { intros c Hc. split.
       - exists c. split; [left; reflexivity | exact Hc].
       - intros [X|[]]. inversion X; subst. discriminate. }
-    destruct (si_cert s) as [c|]; [|discriminate].
+    destruct (si_cert s) as [c|]; [|inversion E; subst; apply Hm; reflexivity].
     destruct (tk_tst tk) as [t0|]; [|inversion E; subst; apply Hm; reflexivity].
     destruct (check_digest_attr H tk s) as [f|] eqn:Ed.
     { subst f. unfold check_digest_attr in Ed.
@@ -141,6 +143,7 @@ Section Proofs.
               if negb (bytes_eqb (H h data) (ti_imprint (with_time t0 (effective_time t0 s)))) then Fail EInvalidData [LTs TsMismatch]
               else if vt then
                 if negb (tc_x509_ok c) then Abort EDecode
+                else if negb (has_ts_eku c) then Fail EUntrusted [LTs TsValidated; LTs TsUntrusted]
                 else match tsa_profile profile_rest c (effective_time t0 s) with
                      | Some cc => Fail EUntrusted [LTs TsValidated; LCred cc; LTs TsUntrusted]
                      | None => if negb (trusted c (effective_time t0 s)) then Fail EUntrusted [LTs TsValidated; LTs TsUntrusted]
@@ -157,6 +160,10 @@ Section Proofs.
     destruct (bytes_eqb _ _); cbn [negb] in E; [|inversion E; subst; apply Hm; reflexivity].
     destruct vt; [|discriminate].
     destruct (tc_x509_ok c); cbn [negb] in E; [|discriminate].
+    destruct (has_ts_eku c); cbn [negb] in E.
+    2:{ inversion E; subst. split.
+        - exists TsUntrusted. split; [right; left; reflexivity | reflexivity].
+        - intros [X|[X|[]]]; discriminate. }
     destruct (tsa_profile _ _ _).
     - inversion E; subst. split.
       + exists TsUntrusted. split; [right; right; left; reflexivity | reflexivity].
@@ -174,25 +181,23 @@ Section Proofs.
     induction ss as [|s r IH]; intros last cur t l E; cbn [Timestamp.signer_loop] in E; [discriminate|].
     destruct (check_signer tk data vt s) eqn:Es.
     - apply IH in E. destruct E as [s' [Hin Hs']]. exists s'. split; [right; exact Hin | exact Hs'].
-    - apply IH in E. destruct E as [s' [Hin Hs']]. exists s'. split; [right; exact Hin | exact Hs'].
     - discriminate.
     - inversion E; subst. exists s. split; [left; reflexivity | exact Es].
   Qed.
 
-  (* the run ends with an empty log although it failed: nothing was visited last, or a `?` exit *)
+  (* the run ends with an empty log although it failed: no SignerInfo at all, or the `?` exit of certificate ordering *)
   Fixpoint silent_run (tk : token) (data : bytes) (vt : bool) (ss : list signer_info) (cur_empty : bool) : bool :=
     match ss with
     | [] => cur_empty
     | s :: r =>
       match check_signer tk data vt s with
-      | Skip => silent_run tk data vt r true
       | Fail _ _ => silent_run tk data vt r false
       | Abort _ => true
       | Done _ _ => false
       end
     end.
 
-  (* the known class F-TS-SILENT *)
+  (* what is left of F-TS-SILENT after fix 5b12435f8 *)
   Definition known_silent (tk : token) (data : bytes) (vt : bool) : Prop :=
     tk_signed_data tk = true /\ tk_certs tk = Some true /\ silent_run tk data vt (tk_signers tk) true = true.
 
@@ -206,7 +211,6 @@ Section Proofs.
     induction ss as [|s r IH]; intros last cur e l E Hc; cbn [Timestamp.signer_loop silent_run] in *.
     - inversion E; subst. destruct Hc as [Hc|Hc]; [left; subst; split; reflexivity | right; exact Hc].
     - destruct (check_signer tk data vt s) eqn:Es.
-      + apply IH in E; [|left; reflexivity]. exact E.
       + pose proof (check_signer_fail _ _ _ _ _ _ Es) as Hf.
         apply IH in E; [|right; exact Hf].
         destruct l0 as [|x l0]; [destruct Hf as [[c [[] _]] _]|]. exact E.
@@ -259,24 +263,72 @@ Section Proofs.
     destruct E as [[_ Hl]|[_ Hn]]; [subst; intros [] | exact Hn].
   Qed.
 
-  (* the silent class contains the simple syntactic case: no SignerInfo's certificate is embedded *)
+  (* after the fix: a token none of whose SignerInfos has an embedded certificate is reported timeStamp.untrusted *)
   Lemma loop_no_cert :
-    forall tk data vt ss last,
-      Forall (fun s => si_cert s = None) ss ->
-      signer_loop tk data vt ss last [] = (Err last, []).
+    forall tk data vt ss last cur,
+      ss <> [] -> Forall (fun s => si_cert s = None) ss ->
+      signer_loop tk data vt ss last cur = (Err EUntrusted, [LTs TsUntrusted]).
   Proof.
-    induction ss as [|s r IH]; intros last Hall; cbn [Timestamp.signer_loop]; [reflexivity|].
-    inversion Hall; subst. unfold Timestamp.check_signer. rewrite H2. apply IH. assumption.
+    induction ss as [|s r IH]; intros last cur Hne Hall; [congruence|].
+    cbn [Timestamp.signer_loop]. inversion Hall; subst. unfold Timestamp.check_signer. rewrite H2.
+    destruct r as [|s2 r2]; [reflexivity|]. apply IH; [discriminate | assumption].
   Qed.
 
-  Lemma silent_when_no_signer_cert :
+  Lemma missing_signer_cert_reported :
     forall tk data vt,
       tk_signed_data tk = true -> tk_certs tk = Some true ->
-      Forall (fun s => si_cert s = None) (tk_signers tk) ->
-      verify_time_stamp tk data vt = (Err EInvalidData, []).
+      tk_signers tk <> [] -> Forall (fun s => si_cert s = None) (tk_signers tk) ->
+      verify_time_stamp tk data vt = (Err EUntrusted, [LTs TsUntrusted]).
   Proof.
-    intros tk data vt Hsd Hc Hall. unfold Timestamp.verify_time_stamp. rewrite Hsd, Hc. cbn [negb].
-    apply loop_no_cert. exact Hall.
+    intros tk data vt Hsd Hc Hne Hall. unfold Timestamp.verify_time_stamp. rewrite Hsd, Hc. cbn [negb].
+    apply loop_no_cert; assumption.
+  Qed.
+
+  (* the run is never silent when there is a SignerInfo and the embedded certificates parse *)
+  Definition certs_parse (tk : token) : Prop :=
+    Forall (fun s => forall c, si_cert s = Some c -> tc_x509_ok c = true) (tk_signers tk).
+
+  Lemma check_signer_no_abort :
+    forall tk data vt s e,
+      (forall c, si_cert s = Some c -> tc_x509_ok c = true) -> check_signer tk data vt s <> Abort e.
+  Proof.
+    intros tk data vt s e Hx E. unfold Timestamp.check_signer in E.
+    destruct (si_cert s) as [c|] eqn:Ec; [|discriminate].
+    specialize (Hx c eq_refl).
+    destruct (tk_tst tk) as [t0|]; [|discriminate].
+    destruct (check_digest_attr H tk s) as [f|] eqn:Ed.
+    { subst f. unfold check_digest_attr in Ed.
+      destruct (si_attrs s) as [a|]; [|discriminate].
+      destruct (sa_digest a); try (inversion Ed; discriminate).
+      destruct (si_digest s); try (inversion Ed; discriminate).
+      destruct (bytes_eqb d (H h (content_or_empty tk))); [discriminate|]. inversion Ed; discriminate. }
+    destruct (cms_tbs tk s) as [tbs|]; [|discriminate].
+    rewrite Hx in E. cbn [negb] in E.
+    destruct (si_digest s); try discriminate;
+      (destruct (si_key_ok s); cbn [negb] in E; [|discriminate];
+       destruct (Verify _ _ _ _); cbn [negb] in E; [|discriminate];
+       destruct (in_tsa_validity _ _ _); cbn [negb] in E; [|discriminate];
+       destruct (ti_imprint_alg _); [|discriminate];
+       destruct (bytes_eqb _ _); cbn [negb] in E; [|discriminate];
+       destruct vt; [|discriminate];
+       destruct (has_ts_eku c); cbn [negb] in E; [|discriminate];
+       destruct (tsa_profile _ _ _); [discriminate|];
+       destruct (trusted _ _); discriminate).
+  Qed.
+
+  Lemma silent_run_false :
+    forall tk data vt ss cur,
+      Forall (fun s => forall c, si_cert s = Some c -> tc_x509_ok c = true) ss ->
+      (ss <> [] \/ cur = false) ->
+      silent_run tk data vt ss cur = false.
+  Proof.
+    induction ss as [|s r IH]; intros cur Hall Hne; cbn [silent_run].
+    - destruct Hne as [Hne|Hc]; [congruence | exact Hc].
+    - inversion Hall; subst.
+      destruct (check_signer tk data vt s) eqn:Es.
+      + apply IH; [assumption | right; reflexivity].
+      + exfalso. eapply check_signer_no_abort; eauto.
+      + reflexivity.
   Qed.
 
   (* ---- the COSE layer *)
@@ -432,38 +484,52 @@ Section Proofs.
     - rewrite Hnow. split; reflexivity.
   Qed.
 
-  (* ---- the TSA certificate: what the EKU gate lets through when trust is checked *)
-
-  (* known class F-TSA-EKU: no id-kp-timeStamping, but emailProtection or OCSPSigning *)
-  Definition known_non_tsa_eku (e : eku) : Prop :=
-    eku_time_stamping e = false /\ (eku_email_protection e = true \/ eku_ocsp_signing e = true).
-
+  (* ---- the TSA certificate (trust on): id-kp-timeStamping and nothing else (fix a6060c320 closed F-TSA-EKU) *)
   Lemma tsa_eku :
     forall tk data s t,
       bound tk data true s t ->
       forall c, si_cert s = Some c ->
       exists e, tc_eku c = Some e /\ eku_any e = false /\
-                (eku_other_allowed e = false ->
-                 (eku_time_stamping e = true /\ eku_email_protection e = false /\ eku_ocsp_signing e = false /\
-                  eku_client_auth e = false /\ eku_server_auth e = false /\ eku_code_signing e = false /\ eku_other_nonempty e = false)
-                 \/ known_non_tsa_eku e).
+                eku_time_stamping e = true /\ eku_email_protection e = false /\ eku_ocsp_signing e = false /\
+                eku_client_auth e = false /\ eku_server_auth e = false /\ eku_code_signing e = false /\ eku_other_nonempty e = false.
   Proof.
     intros tk data s t Hb c Hc. destruct Hb as (c' & t0 & tbs & h & Hc' & _ & _ & _ & _ & _ & _ & _ & _ & Htr).
     rewrite Hc in Hc'. inversion Hc'; subst c'.
-    destruct (Htr eq_refl) as [Hp _]. unfold tsa_profile in Hp.
+    destruct (Htr eq_refl) as [Hts [Hp _]]. unfold tsa_profile in Hp.
     destruct (tc_v3 c); cbn [negb] in Hp; [|discriminate].
     destruct (valid_at _ _ _); cbn [negb] in Hp; [|discriminate].
     destruct (profile_rest c); [discriminate|].
     destruct (eku_gate c) eqn:Eg; cbn [negb] in Hp; [|discriminate].
     destruct (tc_is_ca c) eqn:Eca; [discriminate|].
-    unfold eku_gate in Eg. rewrite Eca in Eg. destruct (tc_eku c) as [e|]; [|discriminate].
+    unfold eku_gate in Eg. rewrite Eca in Eg. unfold has_ts_eku in Hts.
+    destruct (tc_eku c) as [e|]; [|discriminate].
     exists e. split; [reflexivity|].
-    apply andb_true_iff in Eg. destruct Eg as [Eg Ebad]. apply andb_true_iff in Eg. destruct Eg as [Eany Eall].
+    apply andb_true_iff in Eg. destruct Eg as [Eg Ebad]. apply andb_true_iff in Eg. destruct Eg as [Eany _].
     apply negb_true_iff in Eany. apply negb_true_iff in Ebad. split; [exact Eany|].
-    intros Hoth. unfold has_allowed_eku in Eall. rewrite Hoth in Eall. unfold eku_bad_set in Ebad.
-    unfold known_non_tsa_eku.
-    destruct (eku_time_stamping e), (eku_email_protection e), (eku_ocsp_signing e), (eku_client_auth e), (eku_server_auth e),
+    unfold eku_bad_set in Ebad. rewrite Hts in *.
+    destruct (eku_email_protection e), (eku_ocsp_signing e), (eku_client_auth e), (eku_server_auth e),
       (eku_code_signing e), (eku_other_nonempty e); cbn in *; try discriminate; auto 10.
+  Qed.
+
+  (* every run over a non-empty SignerInfo set whose embedded certificates parse reports a failure code when it fails *)
+  Lemma verify_err_reported_structural :
+    forall tk data vt e l,
+      verify_time_stamp tk data vt = (Err e, l) ->
+      tk_signers tk <> [] -> certs_parse tk ->
+      has_failure_code l /\ ~ In (LTs TsTrusted) l.
+  Proof.
+    intros tk data vt e l E Hne Hp. eapply verify_err_reported; [exact E|].
+    intros [_ [_ Hs]]. rewrite (silent_run_false tk data vt (tk_signers tk) true Hp (or_introl Hne)) in Hs. discriminate.
+  Qed.
+
+  Lemma failure_reported_structural :
+    forall c st tk rest cd sig ph vt now,
+      (forall t, ~ header_bound ((st, Some [tk]) :: rest) cd sig ph vt t) ->
+      tk_signers tk <> [] -> certs_parse tk ->
+      has_failure_code (v_log (verify_cose c None ((st, Some [tk]) :: rest) cd sig ph vt now)).
+  Proof.
+    intros c st tk rest cd sig ph vt now Hnb Hne Hp. apply failure_reported; [exact Hnb|].
+    intros [_ [_ Hs]]. rewrite (silent_run_false tk _ vt (tk_signers tk) true Hp (or_introl Hne)) in Hs. discriminate.
   Qed.
 End Proofs.
 
@@ -497,13 +563,14 @@ Lemma example_accepts : v_accepted (w_run (w_token (Some (w_cert w_eku_tsa)))) =
                         /\ v_log (w_run (w_token (Some (w_cert w_eku_tsa)))) = [LTs TsValidated; LTs TsTrusted].
 Proof. vm_compute. split; reflexivity. Qed.
 
-(* F-TS-SILENT: the SignerInfo's certificate is not embedded: the token is dropped, nothing is logged *)
-Lemma silent_refuted :
-  v_time (w_run (w_token None)) = None /\ v_log (w_run (w_token None)) = [] /\ v_expired (w_run (w_token None)) = true.
+(* regression witnesses for the two repaired findings (evaluated on the model; the same inputs are corpus lines 1-3):
+   F-TS-SILENT (fixed 5b12435f8): a token whose signer certificate is not embedded is not used and is reported *)
+Lemma missing_cert_reported_example :
+  v_time (w_run (w_token None)) = None /\ v_log (w_run (w_token None)) = [LTs TsUntrusted] /\ v_expired (w_run (w_token None)) = true.
 Proof. vm_compute. repeat split; reflexivity. Qed.
 
-(* F-TSA-EKU: a certificate with emailProtection only (an ordinary signing credential) passes as TSA certificate *)
-Lemma tsa_eku_refuted :
-  v_accepted (w_run (w_token (Some (w_cert w_eku_email)))) = true
-  /\ v_log (w_run (w_token (Some (w_cert w_eku_email)))) = [LTs TsValidated; LTs TsTrusted].
+(* F-TSA-EKU (fixed a6060c320): a token signed with an emailProtection-only certificate no longer rescues an expired credential *)
+Lemma email_tsa_rejected_example :
+  v_accepted (w_run (w_token (Some (w_cert w_eku_email)))) = false
+  /\ v_log (w_run (w_token (Some (w_cert w_eku_email)))) = [LTs TsValidated; LTs TsUntrusted].
 Proof. vm_compute. split; reflexivity. Qed.
